@@ -21,7 +21,12 @@ def write(ctx, level, coverage, assumptions=None, violations=0, extra=None):
     }
     if extra:
         ev.update(extra)
-    write_json(os.path.join(EVIDENCE, ctx.pid + ".json"), ev)
+    ev["coverage"] = {k: v for k, v in ev["coverage"].items() if v is not None}
+    dest = EVIDENCE
+    if os.environ.get("VERIF_REPO") and os.path.realpath(os.environ["VERIF_REPO"]) != "/repo":
+        # a development run against a scratch copy (mutation self-test): never overwrite real evidence
+        dest = os.path.join(ctx.tmp + "-evidence")
+    write_json(os.path.join(dest, ctx.pid + ".json"), ev)
     return ev
 
 
